@@ -1727,6 +1727,15 @@ where
             return Ok(());
           }
         }
+      } else if is_ident_nint_data_type(self.state.cddl, target_ident) {
+        // likewise for nint: a negative integer, then fall through to the operator
+        match &self.cbor {
+          Value::Integer(i) if i128::from(*i) < 0 => {}
+          _ => {
+            self.add_error(format!("expected type nint, got {:?}", self.cbor));
+            return Ok(());
+          }
+        }
       } else if let Some(kind) = ident_numeric_kind(self.state.cddl, target_ident) {
         let matches_kind = match kind {
           NumericKind::Int => matches!(self.cbor, Value::Integer(_)),
